@@ -21,6 +21,7 @@ import (
 	"fmt"
 	"os"
 	"path/filepath"
+	"sort"
 	"strings"
 	"time"
 
@@ -39,6 +40,7 @@ type cliVariant struct {
 	// sniffs the first bytes for the BEGIN line: leading white space)
 	expect string
 	reason string
+	short  []byte // what to record as the witness instead of a very large text
 }
 
 func wrapAt(body string, cols int) []string {
@@ -267,6 +269,21 @@ func runCLI(r *mon.Run, c *checker) {
 		}
 	}
 
+	big, why := bigIdentityVariants(r, x)
+	if big == nil {
+		r.Inconclusive("16 MiB identity files: %s", why)
+	}
+	for i, v := range big {
+		for _, rt := range cliRoutes {
+			// every file through -d -i FILE; -e -i FILE for the control and every other file
+			if rt.identity && !rt.stdin && (!rt.encrypt || i%2 == 0) {
+				jobs = append(jobs, job{rt, v})
+			}
+		}
+	}
+	// the big files first: they take about a second each
+	sort.SliceStable(jobs, func(a, b int) bool { return len(jobs[a].v.text) > toolLimit/2 && len(jobs[b].v.text) <= toolLimit/2 })
+
 	// one process run; returns whether the tool delivered the real result
 	run := func(j job) (worked, delivered bool, res *cli.Result, err error) {
 		d, err := os.MkdirTemp(scratch, "c08cli.")
@@ -371,7 +388,11 @@ func runCLI(r *mon.Run, c *checker) {
 						what += " and output was delivered"
 					}
 					what += fmt.Sprintf("; stderr %q", truncBytes(res.Stderr, 300))
-					c.violate("cli:"+j.rt.name+":accepts-noncanonical:"+j.v.reason, witness{text: j.v.text, what: what, origin: origin})
+					wt := j.v.text
+					if j.v.short != nil {
+						wt = j.v.short
+					}
+					c.violate("cli:"+j.rt.name+":accepts-noncanonical:"+j.v.reason, witness{text: wt, what: what, origin: origin})
 					tab("cli_routes", j.rt.name+": invalid text ACCEPTED")
 				} else {
 					tab("cli_routes", j.rt.name+": invalid text refused")
